@@ -588,6 +588,14 @@ Definition run (s : sexp) : sexp :=
     | Some c', Some o' => cmd_depth c' o'
     | _, _ => bad
     end
+  | SL [SI 27; SL fs] =>
+    (* DataclassEntry: the field each integer entry names *)
+    match omapM dec_dfield fs with
+    | Some fs' =>
+      SL [SI 0; SL (map (fun i => match Dataclass.dc_entry_field fs' i with Some n => SI n | None => SL [] end)
+                        (seq 0 (length (Dataclass.init_fields fs'))))]
+    | None => bad
+    end
   | SL [SI 25; c; p; f] =>
     match dec_cfg c, dec_obj p, dec_obj f with
     | Some c', Some p', Some f' => cmd_prefix_errors c' p' f'
